@@ -147,8 +147,11 @@ def plant(rng, gen):
         elif kind == "allowed_unknown":
             for e in treegen.all_nodes(t):
                 if e.name in ("eml", "relatedProject") and rng.random() < 0.7:
-                    e.add_child(Node(rng.choice(["software", "protocol"]) if e.name == "eml" else "studyAreaDescription"),
-                                rng.randint(0, len(e.children)))
+                    au = Node(rng.choice(["software", "protocol"]) if e.name == "eml" else "studyAreaDescription")
+                    if rng.random() < 0.6:
+                        au.add_child(Node("title", content="below the allowed-but-unknown element"))
+                        au.children[0].add_child(Node("verifDeep"))
+                    e.add_child(au, rng.randint(0, len(e.children)))
                     break
         elif kind == "repeat" and n.parent is not None:
             n.parent.add_child(n.copy(), n.parent.children.index(n) + 1)
@@ -392,6 +395,14 @@ def run(ctx, params):
         host = rng.choice(treegen.all_nodes(t))
         host.add_child(Node(name, content=rng.choice([None, "x"])), rng.randint(0, len(host.children)))
         ctx.case(judge, ctx, t, j % 2 == 0, ["every-known-name:" + name])
+        emlkit.discard(t)
+    # every child name a rule allows although no element of that name is known (with and without a subtree), both modes
+    for label, t in anytrees.allowed_unknown_cases(gen):
+        for strict in (False, True):
+            t2 = snapshot.from_plain(Node, snapshot.to_plain(t))
+            ctx.case(judge, ctx, t2, strict, ["allowed-but-unknown child " + label])
+            ctx.count("allowed_unknown_child_cases")
+            emlkit.discard(t2)
         emlkit.discard(t)
     # every entry of the lexical class tables once on a node of its type, below a parent that allows it: pruning comes back whatever
     # the content checkers make of the value
